@@ -47,7 +47,8 @@ MANIFEST_NOTE = ("Trusted: Lean kernel (+propext/Classical.choice/Quot.sound), t
                  "itself, the hash function's value, MPITraits, and O(quotient) division with quotients >400 (single operators) / "
                  ">2000 (histories: such a statement ends the case with SKIP) are covered by the run only or not at all. A "
                  "behavioural change of todouble that keeps the 2^-32 bound is reported as no-failing-input-found (model is an "
-                 "exact copy). MPITraits is tied by translation only (never executed: the harness is sequential); overload "
+                 "exact copy). MPITraits<bigunsignedint<k>>::getType is translated and executed inside one process only (singleton MPI, "
+                 "MPI_Sendrecv on MPI_COMM_SELF; MPI itself trusted); overload "
                  "resolution between the signed template overloads and the uintmax_t overloads is a hand-written rule of the model "
                  "(signed type -> checking overload), checked by the run for i8 i16 i32 long long-long u8 u16 u32 ulong "
                  "ulong-long bool; printing is run under showbase/uppercase/showpos/hex/oct flags but not with a field width.")
@@ -55,6 +56,8 @@ TECHNIQUE = 'Lean 4 proof over digit-list model (per operator + all histories wi
 TRANSLATORS = [tr_c10.translate]
 HARNESS = dict(
     sources=["cxx_c10.cc"],
+    mpi=True,        # compiled with mpicxx -DHAVE_MPI=1; run WITHOUT mpirun: the `mpi` cases start MPI as a singleton and
+                     # push values through MPITraits<bigunsignedint<k>>::getType() with MPI_Sendrecv on MPI_COMM_SELF
     repo_sources=["dune/common/exceptions.cc", "dune/common/stdstreams.cc"],
     libs=["-lgmpxx", "-lgmp"],
     flags=["-O0"],   # ten widths x all operators: 12 s instead of 45 s to compile; the run itself takes < 5 s
@@ -65,13 +68,13 @@ RULE = ("cases: random operator x width k in {1,8,16,17,24,32,48,64,65,100,128,1
         "histories `k prog A B : stmt;...` of 1..10 (thorough 1..24) compound statements on two variables, a quarter of the "
         "binary statements self-aliased, a third of the statements with a typed built-in operand (i8..i64, u8..u64, bool; a "
         "quarter of those negative), comparisons (also x CMP x, x CMP own value +-1, x CMP low 64 bits) or touint; printing "
-        "under 32 combinations of stream format flags; distinct = distinct op lines; non-trivial = oracle-checked value/comparison "
+        "under 32 combinations of stream format flags; three values through the MPI datatype; distinct = distinct op lines; non-trivial = oracle-checked value/comparison "
         "(hasheq on unequal values is trivial)")
 ASSUMPTIONS = [
     "the Lean model lean/DuneVerif/Model/C10.lean + C10Prog.lean is hand-written; its fidelity to bigunsignedint.hh rests on this differential run",
     "constants (bits, masks, digit-count formula), the numeric_limits data, the DUNE_BINOP operator list, the bodies of the 20 mixed operators, the derivation of > >= == and the MPI datatype description are regenerated from the source by tools/translators/tr_c10.py",
     "C++ overload resolution (signed built-in -> checking template overload / constructor, everything else -> uintmax_t) is a hand-written rule of the model, exercised by the run for 11 built-in types",
-    "MPITraits<bigunsignedint<k>>::getType is translated, not executed; MPI itself is trusted to transport a committed datatype",
+    "MPITraits<bigunsignedint<k>>::getType is translated and executed within one process (singleton MPI_Init, MPI_COMM_SELF); MPI itself is trusted to transport a committed datatype",
     "todouble: IEEE double operations are exact on the modelled values (theorem todouble_mantissa_exact: mantissa < 2^53; ldexp exact below 2^1024)",
     "division/remainder are exercised with quotients <= 400 (single operators) / <= 2000 (histories) only (the real algorithm is O(quotient))",
     "self-aliased compound operators (a op= a) are modelled on an indexed store whose right operand aliases the destination (alias_refines); that the real loops read index i before writing it is the hand-written model's claim, checked by the run; a case that does not return within 10 s is killed and reported",
